@@ -170,6 +170,23 @@ def run_batch(args):
             if not base_ok:
                 vs.append(({'repo': kind, 'mode': mode, 'what': 'baseline-restore-failed'}, {'spec': spec, 'exc': repr(exc)}))
                 continue
+        elif mode in ('invalid-cache-half', 'invalid-cache-empty'):
+            # the cache was filled by an earlier good run, then every entry was left cut short / empty (an interrupted
+            # write), then the repository is damaged: whatever is fetched again must be verified like a first download
+            sc = H.worker_scratch()
+            cache = sc.sub()
+            t0, e0 = do_restore(kind, dict(s['o']), cache=cache)
+            if e0 is not None or t0 != s['want']:
+                vs.append(({'repo': kind, 'mode': mode, 'what': 'baseline-restore-failed'}, {'spec': spec, 'exc': repr(e0)}))
+                shutil.rmtree(cache, ignore_errors=True)
+                continue
+            for dpath, _dirs, files in os.walk(cache):
+                for fn in files:
+                    fp = os.path.join(dpath, fn)
+                    data = open(fp, 'rb').read()
+                    open(fp, 'wb').write(data[:len(data) // 2] if mode.endswith('half') else b'')
+            tree, exc = do_restore(kind, damage(s['o'], spec), cache=cache)
+            shutil.rmtree(cache, ignore_errors=True)
         else:  # retry-with-cache: a first attempt on the damaged repository, then a retry sharing the cache directory
             sc = H.worker_scratch()
             cache = sc.sub()
@@ -281,7 +298,7 @@ def replay(case):
         names = set(s['o'])
         flat = [spec[1], spec[2]] if spec[0] == 'pair' else [spec]
         if all(all((not isinstance(x, str)) or ('/' not in x) or x in names for x in sp) for sp in flat):
-            for mode in ('fresh', 'same-object', 'retry-with-cache'):
+            for mode in ('fresh', 'same-object', 'retry-with-cache', 'invalid-cache-half', 'invalid-cache-empty'):
                 n, oc, vs = run_batch((kind, [spec], mode))
                 out += [v[0] for v in vs]
     return {'violations': out}
@@ -308,7 +325,9 @@ def main():
             counts[kind] = {'objects': len([k for k in s['o'] if '/' in k]), 'single': len(singles), 'pairs': len(pairs),
                             'bytes': sum(len(v) for k, v in s['o'].items() if '/' in k)}
             work = [('fresh', singles), ('fresh', pairs), ('same-object', red if t == 'quick' else singles[::3] + red),
-                    ('retry-with-cache', [d for d in (red if t == 'quick' else singles[::3] + red)])]
+                    ('retry-with-cache', [d for d in (red if t == 'quick' else singles[::3] + red)]),
+                    ('invalid-cache-half', [d for d in (red if t == 'quick' else singles[::3] + red) if 'snapshots/' in str(d)]),
+                    ('invalid-cache-empty', [d for d in red if 'snapshots/' in str(d)])]
             for mode, specs in work:
                 specs = common.shuffled(specs, kind + mode)
                 step = max(50, len(specs) // 64)
